@@ -9,52 +9,86 @@ Definition n1 : slot := SNoise "pmAuthor" (q "kohja").
 Definition n2 : slot := SNoise "_modelEditable" "T".
 Definition n3 : slot := SNoise "lastModifiedTime" "1585318039382".
 
+(* inert properties: a model view (owned element), a reference list, an HTML documentation (free text), a blank scalar *)
+Definition i_view : slot :=
+  SInert (IChildren (tabs 1) "_modelViews" (list_open crlf 2) (list_sep crlf 2) (list_close crlf 1)
+            [WNode "VIEW000000000001" (Some "View") "ModelView" [IRefs (tabs 3) "container" "" "" "" ["DIAGRAM000000001"]; IField (tabs 3) "view" (q "SH02")] (tabs 2)]).
+Definition i_refs : slot := SInert (IRefs (tabs 3) "classifiers" (list_open crlf 4) (list_sep crlf 4) (list_close crlf 3) ["CLASSCOL00000001:X$Y"; "CLASSBAR00000001"]).
+Definition i_html : slot :=
+  SInert (IRaw (tabs 3 ++ "documentation=" ++ q ("<head> <style> body { color: #000000; font-size: 11px } </style> </head> <p> It" ++ String SQ "s; x=1 {a:b:Operation} </p>") ++ ";")).
+Definition i_blank : slot := SInert (IField (tabs 5) "defaultValue_string" (q "")).
+
 Definition p_x : sparam :=
-  {| sp_id := "PARAM00000000001"; sp_name := "_x"; sp_basic := Some "int"; sp_type := []; sp_dir := Some true; sp_mod := ""; sp_default := "0";
-     sp_mult := ""; sp_layout := [STag TDefault; n1; STag TTypeString; STag TDir; n2] |}.
+  {| sp_id := "PARAM00000000001"; sp_name := "_x"; sp_basic := Some "int"; sp_type := []; sp_dir := Some true; sp_mod := ""; sp_default := "nullptr, nullptr";
+     sp_mult := ""; sp_nl := crlf; sp_layout := [STag TDefault; n1; STag TTypeString; STag TDir; n2] |}.
 Definition p_y : sparam :=
   {| sp_id := "PARAM00000000002"; sp_name := "_y"; sp_basic := None; sp_type := ["PKGA000000000001"; "PKGB000000000001"; "CLASSBAR00000001"];
-     sp_dir := Some false; sp_mod := "*"; sp_default := ""; sp_mult := "0..*"; sp_layout := [n3; STag TMult; STag TType; STag TTypeMod; STag TDir] |}.
+     sp_dir := Some false; sp_mod := "*"; sp_default := ""; sp_mult := "0..*"; sp_nl := crlf; sp_layout := [n3; i_blank; STag TMult; STag TType; STag TTypeMod; STag TDir] |}.
 Definition op_f : sop :=
   {| so_id := "OPER000000000001"; so_name := "F"; so_vis := Some "67"; so_ret := ["DTINT00000000001"]; so_retmod := "";
-     so_abstract := true; so_query := true; so_static := false; so_doc := "Does F."; so_params := [p_x; p_y];
-     so_layout := [n2; STag TChild; STag TVis; STag TQuery; n1; STag TRet; STag TDoc; STag TAbstract] |}.
+     so_abstract := true; so_query := true; so_static := false; so_doc := DText "Does F."; so_params := [p_x; p_y];
+     so_nl := crlf; so_layout := [n2; i_html; STag TChild; STag TVis; STag TQuery; n1; STag TRet; STag TDoc; STag TAbstract] |}.
 Definition op_g : sop :=
   {| so_id := "OPER000000000002"; so_name := "G"; so_vis := Some "68"; so_ret := []; so_retmod := ""; so_abstract := false; so_query := false;
-     so_static := false; so_doc := ""; so_params := []; so_layout := [STag TVis; n3] |}.
+     so_static := false; so_doc := DText ""; so_params := []; so_nl := crlf; so_layout := [STag TVis; n3] |}.
 Definition at_m : sattr :=
-  {| sa_id := "ATTR000000000001"; sa_name := "m_count"; sa_vis := None; sa_type := ["DTINT00000000001"]; sa_mod := ""; sa_mult := "4"; sa_doc := "";
+  {| sa_id := "ATTR000000000001"; sa_name := "m_count"; sa_vis := None; sa_type := ["DTINT00000000001"]; sa_mod := ""; sa_mult := "4"; sa_doc := DRaw ("It" ++ String SQ "s (really)" ++ String LF "two lines.");
      sa_init := "7"; sa_setter := true; sa_getter := false; sa_static := true; sa_const := true;
-     sa_layout := [STag TReadOnly; n1; STag TInit; STag TType; STag TScope; STag TSetter; STag TMult] |}.
+     sa_nl := crlf; sa_layout := [STag TReadOnly; n1; STag TInit; STag TDoc; STag TType; STag TScope; STag TSetter; STag TMult] |}.
 
 Definition c_ifoo : sclass :=
   {| sc_id := "CLASSFOO00000001"; sc_name := "IFoo"; sc_parent := Some "PKGA000000000001"; sc_stereos := ["STIFACE000000001"]; sc_abstract := false;
-     sc_doc := "An interface."; sc_members := [MOp op_f; MOp op_g]; sc_layout := [n1; STag TChild; STag TStereo; n2; STag TDoc] |}.
+     sc_doc := DText "An interface."; sc_members := [MOp op_f; MOp op_g]; sc_nl := crlf; sc_layout := [n1; STag TChild; STag TStereo; n2; STag TDoc] |}.
 Definition c_bar : sclass :=
-  {| sc_id := "CLASSBAR00000001"; sc_name := "CBar"; sc_parent := None; sc_stereos := []; sc_abstract := false; sc_doc := "";
-     sc_members := [MAttr at_m; MOp op_g]; sc_layout := [STag TChild; n3] |}.
+  {| sc_id := "CLASSBAR00000001"; sc_name := "CBar"; sc_parent := None; sc_stereos := []; sc_abstract := false; sc_doc := DText "";
+     sc_members := [MAttr at_m; MOp op_g]; sc_nl := crlf; sc_layout := [i_view; STag TChild; n3] |}.
 Definition c_col : sclass :=
   {| sc_id := "CLASSCOL00000001"; sc_name := "EColor"; sc_parent := None; sc_stereos := ["STENUM0000000001"; "STPACKED00000001"]; sc_abstract := true;
-     sc_doc := ""; sc_members := [MLit "LIT0000000000001" "Red" [n1]; MLit "LIT0000000000002" "Green" []];
-     sc_layout := [STag TAbstract; STag TStereo; STag TChild] |}.
+     sc_doc := DText ""; sc_members := [MLit "LIT0000000000001" "Red" crlf [n1; i_refs]; MLit "LIT0000000000002" "Green" crlf []];
+     sc_nl := crlf; sc_layout := [STag TAbstract; STag TStereo; STag TChild] |}.
 Definition k_a : spackage :=
-  {| sk_id := "PKGA000000000001"; sk_name := "XA"; sk_parent := None; sk_paths := [["PKGA000000000001"; "CLASSFOO00000001"]]; sk_layout := [n1; STag TChild] |}.
+  {| sk_id := "PKGA000000000001"; sk_name := "XA"; sk_parent := None; sk_paths := [["PKGA000000000001"; "CLASSFOO00000001"]]; sk_nl := crlf; sk_layout := [n1; STag TChild] |}.
 Definition k_b : spackage :=
   {| sk_id := "PKGB000000000001"; sk_name := "XB"; sk_parent := Some "PKGA000000000001";
      sk_paths := [["PKGA000000000001"; "PKGB000000000001"; "CLASSBAR00000001"]; ["PKGA000000000001"; "PKGB000000000001"; "NOTDRAWN00000001"]];
-     sk_layout := [STag TChild] |}.
+     sk_nl := crlf; sk_layout := [STag TChild] |}.
 Definition i_r : sinh :=
   {| si_id := "INH0000000000001"; si_parent := None; si_real := true; si_from := ["PKGA000000000001"; "CLASSFOO00000001"];
-     si_to := ["PKGA000000000001"; "PKGB000000000001"; "CLASSBAR00000001"]; si_layout := [STag TTo; n2; STag TFrom] |}.
+     si_to := ["PKGA000000000001"; "PKGB000000000001"; "CLASSBAR00000001"]; si_nl := String LF ""; si_layout := [STag TTo; n2; STag TFrom] |}.
+
+(* associations: ends in either order, with and without multiplicity / aggregation kind (the defaults depend on the order) *)
+Definition e_1f : send :=
+  {| se_id := "END0000000000001"; se_name := Some ""; se_class := ["PKGA000000000001"; "CLASSFOO00000001"]; se_mult := ""; se_agg := Some "67";
+     se_vis := Some "68"; se_getter := true; se_setter := false; se_const := true;
+     se_nl := crlf; se_layout := [STag TVis; n1; STag TAgg; STag TType; STag TReadOnly; STag TGetter; STag TDir] |}.
+Definition e_1t : send :=
+  {| se_id := "END0000000000002"; se_name := None; se_class := ["PKGA000000000001"; "PKGB000000000001"; "CLASSBAR00000001"]; se_mult := "";
+     se_agg := None; se_vis := Some "65"; se_getter := false; se_setter := false; se_const := false;
+     se_nl := crlf; se_layout := [STag TDir; STag TVis; STag TType; n2] |}.
+Definition x_1 : sassoc :=
+  {| sx_id := "ASSOC00000000001"; sx_name := Some "m_bars"; sx_parent := None; sx_doc := DText "Owns, shares."; sx_from := e_1f; sx_to := e_1t;
+     sx_nl := crlf; sx_layout := [n3; STag TFrom; STag TDoc; STag TTo] |}.
+Definition e_2f : send :=
+  {| se_id := "END0000000000003"; se_name := Some ""; se_class := ["CLASSCOL00000001"]; se_mult := "1..*"; se_agg := Some "66";
+     se_vis := Some "71"; se_getter := false; se_setter := true; se_const := false;
+     se_nl := crlf; se_layout := [STag TMult; STag TSetter; STag TVis; STag TAgg; STag TType; STag TDir] |}.
+Definition e_2t : send :=
+  {| se_id := "END0000000000004"; se_name := Some ""; se_class := ["PKGA000000000001"; "CLASSFOO00000001"]; se_mult := "";
+     se_agg := None; se_vis := None; se_getter := false; se_setter := false; se_const := false;
+     se_nl := crlf; se_layout := [STag TType; STag TDir] |}.
+Definition x_2 : sassoc :=
+  {| sx_id := "ASSOC00000000002"; sx_name := None; sx_parent := None; sx_doc := DText ""; sx_from := e_2f; sx_to := e_2t;
+     sx_nl := crlf; sx_layout := [STag TTo; n1; STag TFrom] |}.
 
 Definition ex_S : sdiagram :=
   {| sd_id := "DIAGRAM000000001"; sd_name := "Example";
-     sd_shapes := [("SH01", EInh i_r); ("SH02", EClass c_bar); ("SH03", EPackage k_b); ("SH04", EOther "USAGE00000000001" None "Usage" None [n1]);
-                   ("SH05", EClass c_ifoo); ("SH06", EPackage k_a); ("SH07", EClass c_col)];
-     sd_refd := [{| sr_id := "STIFACE000000001"; sr_name := "Interface"; sr_type := "Stereotype"; sr_parent := None; sr_noise := [n1] |};
-                 {| sr_id := "STENUM0000000001"; sr_name := "enumeration"; sr_type := "Stereotype"; sr_parent := None; sr_noise := [] |};
-                 {| sr_id := "STPACKED00000001"; sr_name := "PackedStruct"; sr_type := "Stereotype"; sr_parent := None; sr_noise := [] |};
-                 {| sr_id := "DTINT00000000001"; sr_name := "int"; sr_type := "DataType"; sr_parent := None; sr_noise := [n2] |}] |}.
+     sd_shapes := [("SH01", EInh i_r); ("SH02", EClass c_bar); ("SH03", EPackage k_b); ("SH04", EOther "USAGE00000000001" None "Usage" None (String LF "") [n1; SInert (IField (String LF "") "visibility" "66")]);
+                   ("SH05", EClass c_ifoo); ("SH06", EPackage k_a); ("SH07", EClass c_col);
+                   ("SH08", EAssoc x_1); ("SH09", EAssoc x_2)];
+     sd_refd := [{| sr_id := "STIFACE000000001"; sr_name := "Interface"; sr_type := "Stereotype"; sr_parent := None; sr_nl := crlf; sr_noise := [n1] |};
+                 {| sr_id := "STENUM0000000001"; sr_name := "enumeration"; sr_type := "Stereotype"; sr_parent := None; sr_nl := crlf; sr_noise := [] |};
+                 {| sr_id := "STPACKED00000001"; sr_name := "PackedStruct"; sr_type := "Stereotype"; sr_parent := None; sr_nl := crlf; sr_noise := [] |};
+                 {| sr_id := "DTINT00000000001"; sr_name := "int"; sr_type := "DataType"; sr_parent := None; sr_nl := crlf; sr_noise := [n2] |}] |}.
 
 Lemma ex_in_domain : sdiagram_ok ex_S = true /\ wf_drawn (tree_of ex_S) = true.
 Proof. split; vm_compute; reflexivity. Qed.
